@@ -1,0 +1,9 @@
+//go:build verif
+
+package vm
+
+// VerifRefs returns the VM's own count of items on stacks, in slots and
+// referenced from them (the value compared with MaxStackSize).
+func (v *VM) VerifRefs() int {
+	return int(v.refs)
+}
